@@ -6,7 +6,7 @@ COMMON_TRUST = [
 ]
 PROPS = {
     "C03": dict(
-        units=["circuit"],
+        units=["circuit", "cbcall"],
         title="Open circuit breaker shields the inner service",
         level_text="Deductive proof (Verus) of contracts on the real bodies of Circuit::{try_acquire,transition_to,record_*,evaluate_window,force_open}: "
                    "while Open a call is admitted only after wait_duration_in_open has elapsed on the (monotone, explicit) clock, rejected calls leave the state unchanged, "
@@ -20,7 +20,7 @@ PROPS = {
         excluded=[],
     ),
     "C04": dict(
-        units=["circuit"],
+        units=["circuit", "cbcall"],
         title="Circuit breaker state machine",
         level_text="Deductive proof (Verus): every kernel operation of the breaker is proved against the documented machine stated over ghost history "
                    "(count-based: counters equal the counts of the history since the last transition; time-based: exact eviction of the expired prefix, statistics equal counts of the live records); "
@@ -33,7 +33,7 @@ PROPS = {
         excluded=["rounding-level disagreement between the f64 rate and the rational rate (the specification is the f64 comparison)"],
     ),
     "C09": dict(
-        units=["circuit"],
+        units=["circuit", "cbcall"],
         title="Half-open admits at most the permitted trial calls",
         level_text="Deductive proof (Verus) with a ghost count of trials admitted since entering half-open. The property clause (admitted ⇒ trials < permitted) FAILS on the real code and is a known finding; "
                    "the companion clauses that do hold (admission iff completed trials < permitted; state untouched; ghost trials counted exactly) are proved so further regressions are still caught.",
